@@ -921,6 +921,61 @@ func tipCheck(cfg Cfg, viaClone bool) []failure {
 	return nil
 }
 
+// Tip() on a view that does NOT own its whole storage (any state reached through Slice/T):
+// it must either leave the view equal to its former T() and every root cell outside the
+// window unchanged, or fail loudly and leave the root unchanged (a window that is not square
+// cannot be rearranged inside the parent's storage). The caller sets a Guard: an in-place
+// transposition that follows permutation cycles of the WHOLE storage may never return.
+func tipViewCheck(cfg Cfg) (fails []failure, outcome string) {
+	w, fs, _ := build(cfg)
+	if fs >= 0 {
+		return nil, ""
+	}
+	m := w.m
+	v := w.view
+	want := snap(v.T())
+	rootBefore := snap(w.root())
+	var perr string
+	func() {
+		defer func() {
+			if r := recover(); r != nil {
+				perr = fmt.Sprint(r)
+			}
+		}()
+		v.Tip()
+	}()
+	key := "Tip(view)|" + cfg.Sto + "|" + w.class() + "|"
+	rootAfter := snap(w.root())
+	inView := map[cellRef]bool{}
+	for i := 0; i < m.rows; i++ {
+		for j := 0; j < m.cols; j++ {
+			inView[m.den[i][j]] = true
+		}
+	}
+	ownRoot := m.rows*m.cols == m.rootR*m.rootC // the view covers its whole root (e.g. the copy a sparse T() made): Tip reshapes the root itself
+	if !ownRoot && (rootAfter.Err != "" || rootAfter.R != m.rootR || rootAfter.C != m.rootC) {
+		return []failure{{key + "root-dims", fmt.Sprintf("Tip on %v changed the shape of the root: %s", cfg, rootAfter.String())}}, "fail"
+	}
+	for i := 0; !ownRoot && i < m.rootR; i++ {
+		for j := 0; j < m.rootC; j++ {
+			if (perr != "" || !inView[cellRef{i, j}]) && !rootAfter.at(i, j).eq(rootBefore.at(i, j)) {
+				what := "write-elsewhere"
+				if perr != "" {
+					what = "refused-but-root-changed"
+				}
+				return []failure{{key + what, fmt.Sprintf("Tip on %v (%s): root cell (%d,%d) changed from %v to %v", cfg, perr, i, j, rootBefore.at(i, j), rootAfter.at(i, j))}}, "fail"
+			}
+		}
+	}
+	if perr != "" {
+		return nil, "refused-loudly"
+	}
+	if got := snap(v); !got.eq(want) {
+		return []failure{{key + "result", fmt.Sprintf("Tip on %v gives %v, former T() was %v", cfg, got, want)}}, "fail"
+	}
+	return nil, "transposed-in-place"
+}
+
 // vector -> matrix reinterpretation: AsMatrix(n,m).At(i,j) is element i*m+j; it is
 // compared read-only (whether it is a reference or a copy is not documented). The vector is
 // an owning vector, and a slice (off, off+R*C) of a longer one for (off, trailing margin) in
